@@ -97,11 +97,12 @@ def gen_cond(run):
 
 # controls that must NOT block (timing just expired, malformed annotation, terminal pod, PDB that does not apply...): if the
 # code nevertheless protects the node it is over-protective, which the statement allows -> MODEL-DRIFT note, not an error
-LENIENCY_CONTROLS = {"nominatedExpired", "nodeDndFalse", "podDndDurExpired", "podDndInvalid", "podDndTerminal", "pdbOk",
+LENIENCY_CONTROLS = {"nominatedExpired", "nodeDndFalse", "podDndDurExpired", "podDndInvalid", "podDndTerminal", "podDndTerminating", "pdbOk", "pdbZeroNilSel",
                      "pdbZeroWaived", "pdbZeroTolerating", "pdbZeroOtherNs", "consolidatableEdge"}
 EXPLORE_BLOCKERS = ["unmanaged", "uninitialized", "nodeGone", "marked", "claimDeleting", "instanceTerminating", "nominated",
                     "nominatedEdge", "nominatedExpired", "nodeDnd", "podDndTrue", "podDndDur", "podDndDurEdge", "podDndDurExpired",
-                    "podDndNoStart", "podDndInvalid", "podDndTerminal", "dsPodDnd", "pdbZero", "pdbOk", "pdbMulti",
+                    "podDndNoStart", "podDndInvalid", "podDndTerminal", "podDndTerminating", "dsPodDnd", "pdbZero", "pdbOk", "pdbMulti",
+                    "pdbZeroAll", "pdbZeroNilSel",
                     "pdbZeroTolerating", "notConsolidatable", "consolidatableEdge", "consolidatableFalse", "buffer", "notDrifted",
                     "tgp"]
 
@@ -143,6 +144,26 @@ def explorer(run, n):
     return out
 
 
+def fault_scenarios(run, rng):
+    """Cells with a pod-level blocker on x, run with read faults at the choke point: whatever fails to be read, x stays
+    protected (a candidate whose pods / PDBs / pool could not be read must not be treated as unblocked)."""
+    plans = [[{"verb": "list", "kind": "Pod", "nth": 0, "err": "Server"}]]
+    plans += [[{"verb": "list", "kind": "Pod", "nth": k, "err": "Server"}] for k in (1, 2, 3, 4)]
+    plans += [[{"verb": "list", "kind": "PodDisruptionBudget", "nth": k, "err": e}] for k in (1, 2, 3) for e in ("Server", "NotFound")]
+    plans += [[{"verb": "list", "kind": "NodePool", "nth": k, "err": "Server"}] for k in (1, 2, 3)]
+    out = []
+    for m in dc.METHODS:
+        for b in ("podDndTrue", "pdbZero", "pdbMulti", "dsPodDnd"):
+            ps = plans if run.tier == "thorough" else rng.sample(plans, 3)
+            for i, plan in enumerate(ps):
+                sc = dc.cell_scenario({"m": m, "pre": [b], "churn": [], "issued": False}, rng, with_round=False)
+                sc["steps"] = [{"a": "Method", "method": m, "faults": plan}, {"a": "Round", "faults": plan}]
+                sc["name"] = "fault:%s:%s:%s-%s-%d" % (m, b, plan[0]["kind"], plan[0]["err"], plan[0]["nth"])
+                sc["tags"] = dict(sc["tags"], kind="fault")
+                out.append(sc)
+    return out
+
+
 def check(run):
     run.rule = ("TLC enumerates the blocker x method table of Disruption.tla (5 methods x 38 blockers/controls, singles and "
                 "pairs with the terminationGracePeriod modifier in quick, all pairs in thorough, plus one churn blocker "
@@ -162,6 +183,8 @@ def check(run):
         scen += [dc.cell_scenario(c, rng, again=True, variant=1) for c in cells]
     conds = gen_cond(run)
     scen += [dc.cond_scenario(b, i) for i, b in enumerate(conds)]
+    faults = fault_scenarios(run, rng)
+    scen += faults
     scen += explorer(run, NEXPLORE[run.tier])
     files = dc.record(run, scen, procs=4 if run.tier == "quick" else 8, shards=2)
     summ = dc.summarise(files)
@@ -206,7 +229,7 @@ def check(run):
     ncell = len(cells)
     nissued = sum(1 for c in cells if c["issued"])
     run.extra_cov.update({"table_cells": ncell, "cells_model_issues": nissued, "cells_blocked_with_live_control": lively,
-                          "cond_behaviours": len(conds), "explorer_scenarios": NEXPLORE[run.tier],
+                          "cond_behaviours": len(conds), "read_fault_scenarios": len(faults), "explorer_scenarios": NEXPLORE[run.tier],
                           "guarded_candidates_by_method": dict(guarded),
                           "consolidatable_true_writes": sum(s["ctrue_writes"] for s in summ)})
     run.exhaustive = True
